@@ -12,6 +12,21 @@ ENV['UBSAN_OPTIONS'] = 'print_stacktrace=1:halt_on_error=1'
 ENV['ASAN_SYMBOLIZER_PATH'] = '/usr/bin/llvm-symbolizer-14'
 
 
+def big_stack():
+    """The sanitized -O1 build needs about 60 times the stack of the shipped RelWithDebInfo build per recursion level of the type
+    checker (measured: 8 MiB are exhausted by a chain of 500 operators, the shipped build takes 30 000). A 2 GiB stack limit
+    gives the instrumented build the same reach, so that stack exhaustion seen by a check is the library's, not ASan's."""
+    import resource
+    soft, hard = resource.getrlimit(resource.RLIMIT_STACK)
+    want = 2 << 30
+    if hard != resource.RLIM_INFINITY:
+        want = min(want, hard)
+    try:
+        resource.setrlimit(resource.RLIMIT_STACK, (want, hard))
+    except (ValueError, OSError):
+        pass
+
+
 def b(x):
     if isinstance(x, bytes):
         return x
@@ -32,7 +47,7 @@ class Oracle:
     def start(self):
         exe = os.path.join(BUILD, 'asan', 'oracle')
         self.proc = subprocess.Popen([exe, self.workdir, str(self.cpu_limit)], stdin=subprocess.PIPE,
-                                     stdout=subprocess.PIPE, stderr=subprocess.DEVNULL, env=ENV)
+                                     stdout=subprocess.PIPE, stderr=subprocess.DEVNULL, env=ENV, preexec_fn=big_stack)
 
     def close(self):
         if self.proc:
